@@ -40,7 +40,20 @@ Inductive mutability : Type :=
 | CannotMutateExpr.
 
 Section Model.
+(* [fix_ = false]: the code as it is.  [fix_ = true]: the proposed repair
+   (`through_pointer`): at the three places where a pointer is dereferenced (Expr::Deref, and
+   Expr::Index / Expr::Member whose source has a pointer type) a Mutable answer is replaced by
+   ImmutableRef when the TYPE of the dereferenced expression is an immutable pointer. *)
+Variable fix_ : bool.
 Variable pk : path -> option bool.
+
+Definition through_pointer (p : path) (res : mutability) : mutability :=
+  if fix_ then
+    match res, pk p with
+    | Mutable, Some false => ImmutableRef
+    | _, _ => res
+    end
+  else res.
 
 Definition is_pointer (p : path) : bool := match pk p with Some _ => true | None => false end.
 
@@ -48,8 +61,8 @@ Fixpoint get_mutability (e : path) (assignment deref : bool) {struct e} : mutabi
   match e with
   | PLit => Mutable
   | PRef m _ => if m then Mutable else ImmutableRef
-  | PDeref p => get_mutability p assignment true
-  | PIndex p => get_mutability p assignment (deref || is_pointer p)
+  | PDeref p => through_pointer p (get_mutability p assignment true)
+  | PIndex p => through_pointer p (get_mutability p assignment (deref || is_pointer p))
   | PBlock p => get_mutability p assignment deref
   | PLocal _ mutable init =>
       if deref then
@@ -73,7 +86,7 @@ Fixpoint get_mutability (e : path) (assignment deref : bool) {struct e} : mutabi
         | Some false => ImmutableRef
         | _ => Mutable                     (* .map(|(m, _)| m).unwrap_or(true) *)
         end
-      else get_mutability p assignment (deref || is_pointer p)
+      else through_pointer p (get_mutability p assignment (deref || is_pointer p))
   | PCall _ => if deref then Mutable else CannotMutateExpr
   | PCast _ =>
       if deref then
